@@ -310,9 +310,9 @@ Fixpoint separated (ps : list piece) : bool :=
 Definition expected_tokens {E} (ps : list piece) : list (TokenKind * option E * stext) :=
   map (fun p => (pk p, None, pw p)) ps ++ [(T_Eof, None, [])].
 
-(** * Known finding D26 (class of inputs on which the unrepaired lexer deviates): identifiers that
-    begin with "0x" or "0b" (and are identifiers because no digit of that base follows the prefix:
-    0b, 0x, 0bz, 0xg, 0b2, 0x_1) are reported as "Invalid binary/hexadecimal number". *)
+(** * The class of defect D26 (repaired in /repo by 35af9d5): identifiers that begin with "0x" or "0b"
+    (identifiers because no digit of that base follows the prefix: 0b, 0x, 0bz, 0xg, 0b2, 0x_1) were
+    reported as "Invalid binary/hexadecimal number".  Kept to name the class. *)
 Definition radix_word (w : stext) : bool :=
   match w with z :: m :: _ => (z =? 48) && ((m =? 120) || (m =? 98)) | _ => false end.
 Definition known_d26 (p : piece) : bool := tk_eqb (pk p) T_Id && radix_word (pw p).
